@@ -18,16 +18,23 @@ __attribute__((noinline)) void paintStack(unsigned char byte) {
 CaseResult runC14(const Case &c, RunCtx &ctx) {
     CaseResult r;
     Interp in(ctx);
+    const char *sb0 = getenv("VERIF_STACK_BYTE");
+    struct Painter : Listener { unsigned char b; void before(Interp &, const Op &, size_t) override { paintStack(b); } } painter;
+    painter.b = sb0 ? static_cast<unsigned char>(atoi(sb0)) : 0xA5;
+    in.L = &painter;     // the stack is painted before EVERY operation: a value read from an uninitialised local differs between the two poison processes
     in.run(c);
     std::string why;
-    if (!framesComplete(in.o(), &why)) { r.tags.insert("incomplete-at-save"); return r; }
+    // purity / repeatability / definedness are demanded of EVERY reachable object, also of objects whose frames do not all carry
+    // the declared shape (gap frames, accepted deviating frames); only objects whose save is refused (beyond capacity) are skipped
     Snap a = takeSnap(in.o());
-    if (!withinCapacity(a, &why)) { r.tags.insert("beyond-capacity"); return r; }
+    if (!framesComplete(in.o(), &why)) r.tags.insert("frames-not-uniform");
     const char *sb = getenv("VERIF_STACK_BYTE");
     const unsigned char stackByte = sb ? static_cast<unsigned char>(atoi(sb)) : 0xA5;
     const std::string p1 = in.path("c14_a.c3d"), p2 = in.path("c14_b.c3d");
     try { paintStack(stackByte); in.o().write(p1); }
-    catch (...) { Outcome e = classifyCurrentException(); r.fail("write threw " + e.cls + ": " + e.what); return r; }
+    catch (...) { Outcome e = classifyCurrentException();
+        if (e.cls == "range_error") { r.tags.insert("save-refused-beyond-capacity"); return r; }
+        r.fail("write threw " + e.cls + ": " + e.what); return r; }
     Snap b = takeSnap(in.o());
     std::string d = diffIdentical(a, b);
     if (!d.empty()) { r.fail("saving changed the object: " + d); return r; }
